@@ -122,6 +122,87 @@ theorem nilpotent (j : Nat) (ψ : State R) (x : Bits) : annihilate j (annihilate
   · by_cases h : x j <;> simp [h]
   · by_cases h : x j <;> simp [h]
 
+/-! ## anticommutation of different modes on Fock space -/
+
+/-- changing the occupation of a mode below j flips the sign of the modes below j -/
+theorem belowSign_flip_below (j i : Nat) (hi : i < j) (x : Bits) :
+    (belowSign j (x.set i (!(x i))) : R) = -belowSign j x := by
+  induction j with
+  | zero => omega
+  | succ j ih =>
+    rw [belowSign_succ, belowSign_succ]
+    by_cases hij : i = j
+    · subst hij
+      rw [belowSign_set i i (Nat.le_refl i)]
+      simp only [Bits.set_same]
+      cases x i <;> simp
+    · have hlt : i < j := by omega
+      rw [ih hlt]
+      have : (x.set i (!(x i))) j = x j := by simp [Bits.set, Ne.symm hij]
+      rw [this]; ring
+
+theorem belowSign_set_below (j i : Nat) (hi : i < j) (x : Bits) (hx : x i = false) :
+    (belowSign j (x.set i true) : R) = -belowSign j x := by
+  have := belowSign_flip_below (R := R) j i hi x
+  rw [hx] at this; simpa using this
+
+theorem belowSign_unset_below (j i : Nat) (hi : i < j) (x : Bits) (hx : x i = true) :
+    (belowSign j (x.set i false) : R) = -belowSign j x := by
+  have := belowSign_flip_below (R := R) j i hi x
+  rw [hx] at this; simpa using this
+
+/-- a_i a_j + a_j a_i = 0 for i < j -/
+theorem car_annihilate_annihilate (i j : Nat) (hij : i < j) (ψ : State R) (x : Bits) :
+    annihilate i (annihilate j ψ) x + annihilate j (annihilate i ψ) x = 0 := by
+  have hne : i ≠ j := by omega
+  unfold annihilate
+  by_cases hi : x i <;> by_cases hj : x j
+  · simp [hi, hj, Bits.set_other _ _ _ _ hne, Bits.set_other _ _ _ _ (Ne.symm hne)]
+  · simp [hi, hj, Bits.set_other _ _ _ _ hne, Bits.set_other _ _ _ _ (Ne.symm hne)]
+  · simp [hi, hj, Bits.set_other _ _ _ _ hne, Bits.set_other _ _ _ _ (Ne.symm hne)]
+  · have hi' : x i = false := by simpa using hi
+    have hj' : x j = false := by simpa using hj
+    simp only [hi', hj', Bool.false_eq_true, if_false, Bits.set_other _ _ _ _ hne, Bits.set_other _ _ _ _ (Ne.symm hne)]
+    rw [belowSign_set_below j i hij x hi', belowSign_set i j (by omega), Bits.set_comm x i j true true hne]
+    ring
+
+/-- a_i† a_j† + a_j† a_i† = 0 for i < j -/
+theorem car_create_create (i j : Nat) (hij : i < j) (ψ : State R) (x : Bits) :
+    create i (create j ψ) x + create j (create i ψ) x = 0 := by
+  have hne : i ≠ j := by omega
+  unfold create
+  by_cases hi : x i <;> by_cases hj : x j
+  · simp only [hi, hj, if_true, Bits.set_other _ _ _ _ hne, Bits.set_other _ _ _ _ (Ne.symm hne)]
+    rw [belowSign_unset_below j i hij x hi, belowSign_set i j (by omega), Bits.set_comm x i j false false hne]
+    ring
+  · simp [hi, hj, Bits.set_other _ _ _ _ hne, Bits.set_other _ _ _ _ (Ne.symm hne)]
+  · simp [hi, hj, Bits.set_other _ _ _ _ hne, Bits.set_other _ _ _ _ (Ne.symm hne)]
+  · simp [hi, hj, Bits.set_other _ _ _ _ hne, Bits.set_other _ _ _ _ (Ne.symm hne)]
+
+/-- a_i a_j† + a_j† a_i = 0 for i < j (and the same with the roles of i and j exchanged) -/
+theorem car_annihilate_create (i j : Nat) (hij : i < j) (ψ : State R) (x : Bits) :
+    annihilate i (create j ψ) x + create j (annihilate i ψ) x = 0 ∧
+    annihilate j (create i ψ) x + create i (annihilate j ψ) x = 0 := by
+  have hne : i ≠ j := by omega
+  unfold annihilate create
+  constructor
+  · by_cases hi : x i <;> by_cases hj : x j
+    · simp [hi, hj, Bits.set_other _ _ _ _ hne, Bits.set_other _ _ _ _ (Ne.symm hne)]
+    · simp [hi, hj, Bits.set_other _ _ _ _ hne, Bits.set_other _ _ _ _ (Ne.symm hne)]
+    · have hi' : x i = false := by simpa using hi
+      simp only [hi', hj, Bool.false_eq_true, if_false, if_true, Bits.set_other _ _ _ _ hne, Bits.set_other _ _ _ _ (Ne.symm hne)]
+      rw [belowSign_set_below j i hij x hi', belowSign_set i j (by omega), Bits.set_comm x i j true false hne]
+      ring
+    · simp [hi, hj, Bits.set_other _ _ _ _ hne, Bits.set_other _ _ _ _ (Ne.symm hne)]
+  · by_cases hi : x i <;> by_cases hj : x j
+    · simp [hi, hj, Bits.set_other _ _ _ _ hne, Bits.set_other _ _ _ _ (Ne.symm hne)]
+    · have hj' : x j = false := by simpa using hj
+      simp only [hi, hj', Bool.false_eq_true, if_false, if_true, Bits.set_other _ _ _ _ hne, Bits.set_other _ _ _ _ (Ne.symm hne)]
+      rw [belowSign_unset_below j i hij x hi, belowSign_set i j (by omega), Bits.set_comm x i j false true hne]
+      ring
+    · simp [hi, hj, Bits.set_other _ _ _ _ hne, Bits.set_other _ _ _ _ (Ne.symm hne)]
+    · simp [hi, hj, Bits.set_other _ _ _ _ hne, Bits.set_other _ _ _ _ (Ne.symm hne)]
+
 /-! ## spin re-ordering is a bijection of the modes -/
 
 theorem upThenDown_lt (n i : Nat) (hn : n % 2 = 0) (hi : i < n) : upThenDown n i < n := by
